@@ -37,6 +37,7 @@ type c12Callback struct {
 	kept        []string // the strings as handed over, looked at again only after Ingest returned
 	failAt      int      // index at which the callback returns failErr (-1: never)
 	failErr     error
+	onFail      func() // runs inside the failing callback, before it returns its error
 	calls       int
 	afterReturn int // callbacks after Ingest returned
 	returned    bool
@@ -52,6 +53,9 @@ func (c *c12Callback) cb(_ context.Context, line string) error {
 	c.got = append(c.got, string(append([]byte(nil), line...)))
 	c.kept = append(c.kept, line)
 	if i == c.failAt {
+		if c.onFail != nil {
+			c.onFail()
+		}
 		return c.failErr
 	}
 	return nil
@@ -199,6 +203,15 @@ func scnC12(mode string) scenarioFn {
 		pipe := rc.Sim.AddPipe(path)
 		ctx, cancel := context.WithCancel(context.Background())
 		rc.Cleanup(cancel)
+		if mode == "cberr" && t.Choose(3, "cancel.in.callback") == 2 {
+			// the context is cancelled while the failing callback is still running (its own error is
+			// what Ingest owes the caller, whatever happens to the pipe meanwhile)
+			cbk.onFail = func() {
+				cancel()
+				simrt.Sleep(200*time.Millisecond, "callback.after.cancel")
+			}
+			rc.Sim.Count("c12.cancel_inside_failing_callback")
+		}
 		npi := namedpipe.NewNamedPipeIngester(nopLogger, health.NewHealth())
 		res := &c12Result{}
 		rc.Sim.Spawn("ingest", func() {
